@@ -1,29 +1,14 @@
 import PystogVerif.Driver
-import PystogVerif.Model.Stog
 import PystogVerif.Model.Rebin
 import PystogVerif.Model.Writer
-import PystogVerif.Model.Workflow
 import PystogVerif.Model.Config
 import PystogVerif.Model.Fortran
-/-! Driver entry points of the hand-written models (Float reading) -/
+/-! Driver entry points of the hand-written models that do not depend on generated code (Float reading) -/
 
 def flag (x : Float) : Bool := x != 0.0
 
-def Model.dispatch (name : String) (a : Array Arg) : Except String (List (List Float)) :=
+def ModelPure.dispatch (name : String) (a : Array Arg) : Except String (List (List Float)) :=
   match name with
-  | "Stog.datasetRows" => do
-      let cfg : Stog.Cfg Float := { qmin := ← Arg.getOScalar a 0, qmax := ← Arg.getOScalar a 1, bcoh := ← Arg.getScalar a 2, btot := ← Arg.getScalar a 3 }
-      let info : Stog.Info Float := {
-        x := ← Arg.getVec a 4, y := ← Arg.getVec a 5, dy := ← Arg.getOVec a 6, qmin := ← Arg.getOScalar a 7, qmax := ← Arg.getOScalar a 8,
-        hasY := flag (← Arg.getScalar a 9), hasX := flag (← Arg.getScalar a 10), yscale := ← Arg.getOScalar a 11,
-        yoffset := ← Arg.getOScalar a 12, xoffset := ← Arg.getOScalar a 13, kind := (← Arg.getScalar a 14).toUInt64.toNat }
-      let r := Stog.datasetRows cfg info
-      pure [r.1.x, r.1.y, r.1.dy, r.2.x, r.2.y, r.2.dy]
-  | "Stog.mergeData" => do
-      let opts : Stog.MergeOpts Float := { sScale := ← Arg.getOScalar a 0, sOffset := ← Arg.getOScalar a 1, fScale := ← Arg.getOScalar a 2, fOffset := ← Arg.getOScalar a 3 }
-      let sq : Stog.Rows Float := ⟨← Arg.getVec a 4, ← Arg.getVec a 5, ← Arg.getVec a 6⟩
-      let r := Stog.mergeData opts sq
-      pure [r.1.x, r.1.y, r.1.dy, r.2.1, r.2.2.1, r.2.2.2]
   | "Model.rebin" => do
       let r := Rebin.rebin (← Arg.getVec a 0) (← Arg.getVec a 1) (← Arg.getScalar a 2) (← Arg.getScalar a 3) (← Arg.getScalar a 4)
       pure [r.1, r.2]
@@ -41,21 +26,6 @@ def Model.dispatch (name : String) (a : Array Arg) : Except String (List (List F
         | some (s, n) => [if s then 1.0 else 0.0, Float.ofNat (n / 10^12), Float.ofNat (n % 10^12)]
         | Option.none => [-1.0, -1.0, -1.0]
       pure [rows.flatMap (fun r => enc r.1), rows.flatMap (fun r => enc r.2)]
-  | "Wf.run" => do
-      let rsf := (← Arg.getScalar a 0).toUInt64.toNat
-      let rho ← Arg.getScalar a 1
-      let bcoh ← Arg.getScalar a 2
-      let lowq := flag (← Arg.getScalar a 3)
-      let cutoff ← Arg.getScalar a 4
-      let dr ← Arg.getVec a 5
-      let s : Workflow.Settings Float := { rsf := rsf, rho := rho, bcoh := bcoh, lowq := lowq, cutoff := cutoff, dr := dr }
-      let st0 : Workflow.State Float := { sq := (← Arg.getVec a 6, ← Arg.getVec a 7) }
-      let ops := (← Arg.getVec a 8).map (fun c => match c.toUInt64.toNat with
-        | 0 => Workflow.Op.transform | 1 => Workflow.Op.filter | 2 => Workflow.Op.lorch | 3 => Workflow.Op.keenFq | _ => Workflow.Op.keenGr)
-      let st := Workflow.run s st0 ops
-      let enc : Option (Workflow.Curve Float) → List (List Float) := fun o => match o with
-        | some c => [[1.0], c.1, c.2] | Option.none => [[0.0], [], []]
-      pure ([st.sq.1, st.sq.2] ++ enc st.gr ++ enc st.ft ++ enc st.sqFt ++ enc st.grFt ++ enc st.grLorch ++ enc st.fqKeen ++ enc st.gkKeen)
   | "Cfg.domain" => do
       pure [Config.createDomain (← Arg.getScalar a 0) (← Arg.getScalar a 1) (← Arg.getScalar a 2)]
   | "Cfg.settings" => do
